@@ -140,6 +140,16 @@ def valid_numbers(name, raw_fraction=4, **opts):
         idx = [i for i, c in enumerate(v) if cls(c)]
         if not idx:
             return v
+        if draw(st.integers(0, 5)) == 0:
+            # length classes the corpus does not contain: drop or duplicate one character, then repair
+            i = draw(st.sampled_from(idx))
+            v2 = v[:i] + v[i + 1:] if draw(st.booleans()) else v[:i] + v[i] + v[i:]
+            w = synth(name, v2, [], opts)
+            if w is not None:
+                o = core.out(m.validate, w, **opts)
+                if o[0] == 'ok' and isinstance(o[1], str) and o[1]:
+                    stats['synth_length_variant'] += 1
+                    return o[1]
         k = draw(st.integers(1, 3))
         muts = []
         for _ in range(k):
@@ -156,6 +166,45 @@ def valid_numbers(name, raw_fraction=4, **opts):
         stats['synth_ok'] += 1
         return o[1]
     return s()
+
+
+def extra_valid(name):
+    """Constructive generators for registry-backed formats whose interesting inputs same-class mutation rarely reaches.
+    Returns a strategy of candidate strings (validity is decided by the tree at use) or None."""
+    if name == 'cfi':
+        import os
+        from vf.refs import numdbref
+        roots, _ = numdbref.parse(open(os.path.join(core.REPO, 'stdnum', 'cfi.dat'), encoding='utf-8').read())
+
+        @st.composite
+        def s(draw):
+            cat = draw(st.sampled_from([e for e in roots if e.ranges]))
+            grp = draw(st.sampled_from([e for e in cat.children if e.ranges] or [cat]))
+            code = cat.ranges[0][0] + grp.ranges[0][0]
+            level = grp.children
+            while len(code) < 6:
+                vals = [e.ranges[0][0] for e in level if e.ranges and 'v' in e.props]
+                code += draw(st.sampled_from(vals + ['X'])) if vals else 'X'
+                nxt = [e for e in level if e.ranges and e.ranges[0][0] != e.ranges[0][1]]
+                level = nxt[0].children if nxt else []
+            return code
+        return s()
+    if name == 'isil':
+        import os
+        from vf.refs import numdbref
+        roots, _ = numdbref.parse(open(os.path.join(core.REPO, 'stdnum', 'isil.dat'), encoding='utf-8').read())
+        agencies = sorted(set(lo.rstrip('$') for e in roots for lo, hi in e.ranges))
+
+        @st.composite
+        def s(draw):
+            a = draw(st.sampled_from(agencies))
+            a2 = draw(st.sampled_from([a, a.lower(), a.capitalize()]))
+            parts = draw(st.lists(st.one_of(st.sampled_from([a, a.lower(), a.upper()]),
+                                            st.text(alphabet='ABCXYZabcxyz0123456789', min_size=1, max_size=4)), min_size=1, max_size=3))
+            local = draw(st.sampled_from(['', '-', ':', '/'])).join(parts)[:11]
+            return a2 + '-' + local
+        return s()
+    return None
 
 
 # --------------------------------------------------------------------------
@@ -323,6 +372,25 @@ def edits(base):
                     x[i], x[i + 1] = x[i + 1], x[i]
         return ''.join(x)
     return s()
+
+
+def newline_edits(base):
+    """Strategy: a newline (or another line-break control) put where `$`-anchored patterns and strip() treat it specially:
+    before the last / last-but-one character, at the very end, at the start, right after a two-letter prefix."""
+    @st.composite
+    def s(draw):
+        v = draw(base)
+        n = len(v)
+        pos = draw(st.sampled_from([max(n - 1, 0), max(n - 1, 0), max(n - 2, 0), n, 0, min(2, n), draw(st.integers(0, n))]))
+        c = draw(st.sampled_from(['\n', '\n', '\n', '\r', '\x0b', '\x0c', '\x1c', '\x85', '\u2028', '\n\n']))
+        if draw(st.booleans()) or pos >= n:
+            return v[:pos] + c + v[pos:]
+        return v[:pos] + c + v[pos + 1:]
+    return s()
+
+
+SUSPICIOUS = ['\n', '\r', '\t', '\x00', ' ', '_', '&', 'Ñ', 'ñ', 'Ä', 'ö', 'ß', 'ı', 'İ', 'ſ', 'K', '٣', '५', '²', '①', 'Ⅷ', '０', 'Ａ',
+              'а', 'Α', 'é', '́', '‍', '﻿', '*', '+', '#', '@', '/', '\\', '%', "'", '"', '<', 'X', 'x', '0', '9', 'A', 'a', 'Z', '-', '.']
 
 
 def long_text(maxlen):
